@@ -167,3 +167,39 @@ def _(vc):
     vc.ensure("single_allocation_site", len(sites) == 1 and sites[0][0].endswith("parameters/nodes.py") and lo <= sites[0][1] <= hi)
     assigns = [n for n in ast.walk(fi.node) if isinstance(n, ast.Assign) and any(isinstance(t, ast.Attribute) and t.attr == "_ptensor" for t in n.targets)]
     vc.ensure("assigned_to__ptensor", len(assigns) == 1 and isinstance(assigns[0].value, ast.Call))
+
+
+@obligation("C19.storage.every_parameter_tensor_is_persistent", "C19", ["cirkit/backend/torch/parameters/nodes.py:TorchTensorParameter.reset_parameters"])
+def _(vc):
+    """frozen tensors (requires_grad=False) hold values a recompilation does not reproduce (random initialisers, later updates), so they must be in
+    the state dict as well: reset_parameters stores the tensor as nn.Parameter whatever requires_grad is - it makes no other registration - and no
+    buffer of the torch backend is registered as non-persistent"""
+    import os
+    fi = vc.repo.lookup("cirkit/backend/torch/parameters/nodes.py:TorchTensorParameter.reset_parameters")
+    vc.repo.touch(fi)
+    regs = [n for n in ast.walk(fi.node) if isinstance(n, ast.Call) and isinstance(n.func, ast.Attribute) and
+            n.func.attr in ("register_buffer", "register_parameter", "register_module", "add_module", "__setattr__")]
+    regs += [n for n in ast.walk(fi.node) if isinstance(n, ast.Call) and isinstance(n.func, ast.Name) and n.func.id in ("setattr", "delattr")]
+    vc.ensure("no_other_registration_in_reset_parameters", regs == [])
+    stores = [n for n in ast.walk(fi.node) if isinstance(n, ast.Assign) and any(isinstance(t, ast.Attribute) and t.attr == "_ptensor" for t in n.targets)]
+
+    def is_nn_parameter(v):
+        return isinstance(v, ast.Call) and isinstance(v.func, ast.Attribute) and v.func.attr == "Parameter" and isinstance(v.func.value, ast.Name) and v.func.value.id == "nn"
+    vc.ensure("every_store_of_the_tensor_is_an_nn_Parameter", len(stores) >= 1 and all(is_nn_parameter(n.value) for n in stores))
+    conditional = [n for n in ast.walk(fi.node) if isinstance(n, (ast.If, ast.IfExp)) and any(
+        isinstance(x, ast.Attribute) and x.attr in ("_requires_grad", "requires_grad") for x in ast.walk(n.test))]
+    vc.ensure("storage_does_not_depend_on_requires_grad", conditional == [])
+    bad = []
+    root = os.path.join(vc.repo.root, "cirkit/backend/torch")
+    for dp, _, fs in os.walk(root):
+        for f in fs:
+            if f.endswith(".py") and f != "pic.py":
+                rel = os.path.relpath(os.path.join(dp, f), vc.repo.root)
+                for n in ast.walk(vc.repo.module_by_path(rel).tree):
+                    if isinstance(n, ast.Call) and isinstance(n.func, ast.Attribute) and n.func.attr == "register_buffer":
+                        for kw in n.keywords:
+                            if kw.arg == "persistent" and not (isinstance(kw.value, ast.Constant) and kw.value.value is True):
+                                bad.append((rel, n.lineno))
+                        if len(n.args) >= 3:
+                            bad.append((rel, n.lineno))
+    vc.ensure("no_non_persistent_buffer_in_the_torch_backend", bad == [])
